@@ -73,6 +73,7 @@ pub fn profile(name: &str) -> Profile {
         long_chain: 0,
         churn_thread: true,
         tags: false,
+        choreo: false,
     };
     match name {
         "c01" => {
@@ -250,6 +251,62 @@ pub fn profile(name: &str) -> Profile {
                 }
             }
         }
+        "c02g" => {
+            // "late reader against a due cascade", on random shapes / stamps / residues
+            p.name = "c02g";
+            p.choreo = true;
+            p.prefill = 16;
+            p.long_chain = 700;
+            p.threads = (3, 4);
+            p.churn_thread = false;
+            let reader = Role {
+                name: "late-reader",
+                weights: w(&[(K::Load, 10), (K::WLoad, 8), (K::WsUpgrade, 12), (K::WeakSnap, 2), (K::Deref, 8), (K::RcSnapshot, 1), (K::Counted, 2), (K::Upgrade, 2), (K::WsCounted, 2), (K::Cas, 1)]),
+                ops: (3, 9),
+            };
+            let unlinker = Role {
+                name: "late-unlinker",
+                weights: w(&[(K::Swap, 10), (K::DropRc, 10), (K::Store, 4), (K::Load, 4), (K::Deref, 2), (K::WSwap, 2), (K::WeakDrop, 2)]),
+                ops: (2, 7),
+            };
+            p.roles = vec![reader, unlinker, reader_clone()];
+            p.stall_sites = vec![S::COLLECT_AFTER_ADVANCE, S::COLLECT_AFTER_ADVANCE, S::COLLECT_POP, S::BAG_CALL, S::TD_LOAD, S::DISP_LOAD, S::DISP_CHILD, S::DISP_SIBLING, S::DISP_CHILD_CAS];
+        }
+        "c01g" => {
+            // "late upgrader against a due destruction attempt"
+            p.name = "c01g";
+            p.choreo = true;
+            p.prefill = 16;
+            p.threads = (3, 4);
+            p.nwroots = 3;
+            p.churn_thread = false;
+            let upgrader = Role {
+                name: "late-upgrader",
+                weights: w(&[(K::WLoad, 10), (K::WsCounted, 10), (K::Upgrade, 14), (K::WsUpgrade, 6), (K::Counted, 4), (K::Clone, 3), (K::Deref, 8), (K::Load, 3), (K::WeakClone, 2), (K::Store, 2), (K::Swap, 2)]),
+                ops: (4, 12),
+            };
+            let upgrader2 = Role {
+                name: "late-upgrader2",
+                weights: w(&[(K::WLoad, 10), (K::WsCounted, 8), (K::Upgrade, 12), (K::WsUpgrade, 8), (K::Deref, 8), (K::DropRc, 4), (K::WeakDrop, 3), (K::Downgrade, 3), (K::Load, 3), (K::Counted, 3)]),
+                ops: (4, 12),
+            };
+            p.roles = vec![upgrader, upgrader2];
+            p.stall_sites = vec![S::TD_LOAD, S::TD_CAS, S::TD_CAS, S::TD_CAS, S::BAG_CALL, S::COLLECT_POP, S::COLLECT_AFTER_ADVANCE, S::DISP_LOAD, S::DISP_CHILD_CAS, S::DISP_WEAKED, S::DECS_CAS];
+        }
+        "tiny" => {
+            // small programs for Miri (about four orders of magnitude slower than native)
+            p.name = "tiny";
+            p.threads = (2, 2);
+            p.ops = (3, 9);
+            p.nroots = 2;
+            p.nwroots = 1;
+            p.prefill = 10;
+            p.weights = w(&[
+                (K::New, 6), (K::Clone, 4), (K::DropRc, 10), (K::Store, 8), (K::Swap, 6), (K::Cas, 4), (K::Load, 10), (K::Counted, 5),
+                (K::Downgrade, 6), (K::WeakDrop, 5), (K::Upgrade, 8), (K::WeakSnap, 3), (K::WsUpgrade, 5), (K::WsCounted, 3), (K::WLoad, 4),
+                (K::WStore, 4), (K::Pin, 2), (K::Unpin, 5), (K::Churn, 6), (K::Deref, 8),
+            ]);
+        }
         "c14" => {
             p.name = "c14";
             p.long_chain = 600;
@@ -258,6 +315,23 @@ pub fn profile(name: &str) -> Profile {
         _ => {}
     }
     p
+}
+
+static CH_TARGET: std::sync::atomic::AtomicUsize = std::sync::atomic::AtomicUsize::new(usize::MAX);
+static CH_DONE: AtomicU64 = AtomicU64::new(0);
+static CH_LATE: AtomicU64 = AtomicU64::new(0);
+static CH_NLATE: AtomicU64 = AtomicU64::new(0);
+fn ch_when(_h: u32) -> bool {
+    circ::verif::global_epoch() >= CH_TARGET.load(SeqCst)
+}
+fn ch_start(_a: usize, _b: usize) -> bool {
+    sched::is_stalled(0) || CH_DONE.load(SeqCst) == 1
+}
+fn ch_done(_a: usize, _b: usize) -> bool {
+    CH_DONE.load(SeqCst) == 1
+}
+fn ch_until() -> bool {
+    CH_LATE.load(SeqCst) >= CH_NLATE.load(SeqCst)
 }
 
 fn reader_clone() -> Role {
@@ -661,12 +735,13 @@ fn run_one(cfg: &RunCfg, prof: &Arc<Profile>, eseed: u64, idx: u64, st: &mut Bat
         mon::violation("C04", "C04|garbage-not-reclaimed-within-bound", "left-over garbage before an execution could not be reclaimed in 400 rounds".into());
     }
     mon::reset_objs();
-    let preroll = rng.below(16) as usize;
+    let preroll = if cfg!(miri) { rng.below(3) as usize } else { rng.below(16) as usize };
     churn(preroll);
     let nthreads = rng.range(prof.threads.0 as u64, prof.threads.1 as u64) as usize;
     // shared state + prefill
     let mut root_init = Vec::new();
     let mut wroot_init = Vec::new();
+    let mut pool: Vec<(Weak<VNode>, u32)> = Vec::new();
     let roots: Vec<AtomicRc<VNode>> = (0..prof.nroots).map(|_| AtomicRc::null()).collect();
     let wroots: Vec<AtomicWeak<VNode>> = (0..prof.nwroots).map(|_| AtomicWeak::null()).collect();
     {
@@ -699,7 +774,7 @@ fn run_one(cfg: &RunCfg, prof: &Arc<Profile>, eseed: u64, idx: u64, st: &mut Bat
                 wroot_init.push((0, 0));
             }
         }
-        drop(firsts);
+        pool = firsts;
     }
     // initial contents of the field cells of the prefilled nodes (for the cell histories)
     let mut field_init: HashMap<u64, Val> = HashMap::new();
@@ -722,8 +797,20 @@ fn run_one(cfg: &RunCfg, prof: &Arc<Profile>, eseed: u64, idx: u64, st: &mut Bat
         }
     }
     // age the links
-    let age = *rng.pick(&[0usize, 0, 1, 2, 3, 4, 5, 8, 13, 20]);
-    churn(age);
+    let age = if cfg!(miri) { *rng.pick(&[0usize, 3, 4]) } else { *rng.pick(&[0usize, 0, 1, 2, 3, 4, 5, 8, 13, 20]) };
+    // while the links age, some nodes get a stamp from a non-final decrement
+    for _ in 0..age {
+        churn(1);
+        if !pool.is_empty() && rng.chance(1, 3) {
+            let k = rng.below(pool.len() as u64) as usize;
+            drop(pool[k].0.upgrade());
+        }
+    }
+    if !pool.is_empty() && rng.chance(1, 3) {
+        let k = rng.below(pool.len() as u64) as usize;
+        drop(pool[k].0.upgrade());
+    }
+    drop(pool);
     let sh = Arc::new(Shared {
         roots,
         wroots,
@@ -755,7 +842,33 @@ fn run_one(cfg: &RunCfg, prof: &Arc<Profile>, eseed: u64, idx: u64, st: &mut Bat
     let mut bodies: Vec<Box<dyn FnOnce() + Send>> = Vec::new();
     let ops_total = Arc::new(AtomicU64::new(0));
     let role_shift = rng.below(8) as usize;
-    for t in 0..nthreads {
+    let mut ecfg = ecfg;
+    let first_worker = if prof.choreo {
+        CH_TARGET.store(usize::MAX, SeqCst);
+        CH_DONE.store(0, SeqCst);
+        CH_LATE.store(0, SeqCst);
+        CH_NLATE.store((nthreads - 1) as u64, SeqCst);
+        let site = *rng.pick(&prof.stall_sites);
+        ecfg.policy = Policy::Rand { num: 1, den: *rng.pick(&[8u64, 30, 100, 300]) };
+        ecfg.stalls.insert(0, Stall { thread: 0, site, kth: 1, max_steps: 200_000, epochs: 0, when: Some(ch_when), repeat: false, until: Some(ch_until) });
+        let sh2 = sh.clone();
+        let which = rng.below(sh.roots.len() as u64) as usize;
+        let extra_rounds = rng.range(8, 16) as usize;
+        bodies.push(Box::new(move || {
+            {
+                let g = circ::cs();
+                mon::oplog(0, format!("Root({}).store(null)  (release); then churn x{} with a stall once the release is due", which, extra_rounds));
+                sh2.roots[which].store(Rc::null(), SeqCst, &g);
+            }
+            CH_TARGET.store(circ::verif::global_epoch() + 3, SeqCst);
+            churn(extra_rounds);
+            CH_DONE.store(1, SeqCst);
+        }));
+        1
+    } else {
+        0
+    };
+    for t in first_worker..nthreads {
         let sh2 = sh.clone();
         let prof2 = prof.clone();
         let role = if prof.roles.is_empty() { None } else { Some((t + role_shift) % prof.roles.len()) };
@@ -766,21 +879,32 @@ fn run_one(cfg: &RunCfg, prof: &Arc<Profile>, eseed: u64, idx: u64, st: &mut Bat
         let nops = rng.range(lo as u64, hi as u64);
         let tseed = mix(eseed, 1000 + t as u64);
         let ot = ops_total.clone();
+        let choreo = prof.choreo;
         bodies.push(Box::new(move || {
             let mut th = T::new(t as u32, tseed, sh2, prof2, role);
+            if choreo {
+                // late workers start once the collector is held with the release due
+                sched::block_on(ch_start, 0, 0);
+            }
             for _ in 0..nops {
                 th.step();
+            }
+            if choreo {
+                // keep guards and snapshots until the collector has finished
+                CH_LATE.fetch_add(1, SeqCst);
+                sched::block_on(ch_done, 0, 0);
+                th.deref_all();
             }
             th.finish();
             ot.fetch_add(th.nops, Relaxed);
         }));
     }
     if prof.churn_thread {
-        let k = rng.range(3, 24);
+        let k = if cfg!(miri) { rng.range(2, 6) } else { rng.range(3, 24) };
         bodies.push(Box::new(move || {
             // keeps the epoch moving while another worker is held at a stall rule
             let mut left = k;
-            let mut extra = 120u32;
+            let mut extra = if cfg!(miri) { 8u32 } else { 120u32 };
             loop {
                 if left > 0 {
                     left -= 1;
@@ -849,6 +973,7 @@ fn run_one(cfg: &RunCfg, prof: &Arc<Profile>, eseed: u64, idx: u64, st: &mut Bat
     st.audit_rounds_max = st.audit_rounds_max.max(r1).max(r2);
     // ---- statistics ----------------------------------------------------------------------------
     st.execs += 1;
+    mon::EXECS_DONE.fetch_add(1, SeqCst);
     st.cut += es.cut as u64;
     st.steps += es.steps;
     st.switches += es.switches;
@@ -940,6 +1065,7 @@ fn run_one(cfg: &RunCfg, prof: &Arc<Profile>, eseed: u64, idx: u64, st: &mut Bat
     };
     st.hashes.insert(h);
     if relevant {
+        mon::NONTRIVIAL_DONE.fetch_add(1, SeqCst);
         st.nontrivial_hashes.insert(h);
         if st.samples.len() < 3 {
             st.samples.push(
